@@ -367,7 +367,7 @@ Ext2 == {<<2, 1>>, <<1, 3>>}
 Ext12 == {<<2>>, <<2, 2>>}
 Ext2b == {<<2, 2>>, <<3, 2>>, <<1, 3>>}
 Ext12x == {<<2>>, <<2, 1>>}
-ExtMix == {<<1>>, <<3>>, <<2, 2>>, <<3, 2>>, <<1, 3>>, <<2, 5>>}
+ExtMix == {<<1>>, <<3>>, <<2, 2>>, <<3, 2>>, <<1, 3>>, <<2, 5>>, <<2, 3, 2>>}
 ExtConv == {<<1>>, <<2>>, <<3>>, <<5>>, <<1, 1>>, <<2, 2>>, <<3, 2>>, <<2, 3>>, <<1, 4>>, <<3, 3>>, <<2, 2, 2>>, <<3, 1, 2>>, <<2, 1, 2, 3>>}
 ExtConvQ == {<<3, 2>>, <<2, 1, 2>>}
 =============================================================================
